@@ -163,35 +163,35 @@ Proof. intros H. apply fn_ok_calls. apply source_fn_ok. exact H. Qed.
 (* the headline statement, about the translated code *)
 Lemma source_exactly_once k f :
   In (k, f) source_fns ->
-  forall sc2 ops r snap is_str perm sc s' log rz order,
+  forall scs ops r snap is_str perm sc s' log rz order,
     lookup r (sets (reached ops)) = Some snap ->
-    run_fn (ex1 sc2) sc f is_str perm snap (reached ops) = Some (s', log, rz) ->
+    run_fn (exN scs) sc f is_str perm snap (reached ops) = Some (s', log, rz) ->
     visit_order k perm snap = Some order ->
     NoDup log /\
     (forall a, In a log <->
-               exists s1, turn_state (ex1 sc2) sc order (push_frame (reached ops)) a = Some s1 /\ alive s1 a = true) /\
+               exists s1, turn_state (exN scs) sc order (push_frame (reached ops)) a = Some s1 /\ alive s1 a = true) /\
     (forall a, In a log -> In a snap /\ a < next_id (reached ops)).
 Proof.
-  intros H sc2 ops r snap is_str perm sc s' log rz order Hl Hr Ho.
+  intros H scs ops r snap is_str perm sc s' log rz order Hl Hr Ho.
   rewrite (source_is_activation k f H) in Hr. repeat split.
-  - eapply (reached_once (ex1 sc2)); eassumption.
-  - apply (reached_exact (ex1 sc2) ops k r perm sc snap s' log rz order Hl Hr Ho a).
-  - apply (reached_exact (ex1 sc2) ops k r perm sc snap s' log rz order Hl Hr Ho a).
-  - apply (proj1 (reached_no_new (ex1 sc2) (good_ex1 sc2) ops k r perm sc snap s' log rz Hl Hr) a H0).
-  - apply (proj1 (reached_no_new (ex1 sc2) (good_ex1 sc2) ops k r perm sc snap s' log rz Hl Hr) a H0).
+  - eapply (reached_once (exN scs)); eassumption.
+  - apply (reached_exact (exN scs) ops k r perm sc snap s' log rz order Hl Hr Ho a).
+  - apply (reached_exact (exN scs) ops k r perm sc snap s' log rz order Hl Hr Ho a).
+  - apply (proj1 (reached_no_new (exN scs) (good_exN scs) ops k r perm sc snap s' log rz Hl Hr) a H0).
+  - apply (proj1 (reached_no_new (exN scs) (good_exN scs) ops k r perm sc snap s' log rz Hl Hr) a H0).
 Qed.
 
 Lemma source_all_called k f :
   In (k, f) source_fns ->
-  forall sc2 ops r snap is_str perm sc s' log rz order,
+  forall scs ops r snap is_str perm sc s' log rz order,
     lookup r (sets (reached ops)) = Some snap -> (forall a, In a snap -> In a (reg (reached ops))) ->
-    run_fn (ex1 sc2) sc f is_str perm snap (reached ops) = Some (s', log, rz) ->
+    run_fn (exN scs) sc f is_str perm snap (reached ops) = Some (s', log, rz) ->
     visit_order k perm snap = Some order ->
     (forall a, spares sc a) -> calm sc -> log = order /\ rz = false.
 Proof.
-  intros H sc2 ops r snap is_str perm sc s' log rz order Hl Hreg Hr Ho.
+  intros H scs ops r snap is_str perm sc s' log rz order Hl Hreg Hr Ho.
   rewrite (source_is_activation k f H) in Hr.
-  apply (reached_all_called (ex1 sc2) (good_ex1 sc2) ops k r perm sc snap s' log rz order Hl Hreg Hr Ho).
+  apply (reached_all_called (exN scs) (good_exN scs) ops k r perm sc snap s' log rz order Hl Hreg Hr Ho).
 Qed.
 
 (* the registry statements in the order extracted from mesa/model.py are the model's create1 / deregister *)
